@@ -167,18 +167,24 @@ impl SrtpSession {
 
     pub fn unprotect_rtp(&mut self, packet: SrtpPacket) -> SrtpResult<RtpPacket> {
         let ssrc = packet.header.ssrc;
+        // Only an authenticated packet may touch the context table: a context
+        // for an unknown SSRC is built on the side and kept only if the packet
+        // verifies, and eviction/`last_used` are driven by accepted packets.
+        if let Some(ctx) = self.rx_contexts.get_mut(&ssrc) {
+            let packet = ctx.unprotect(packet)?;
+            ctx.last_used = std::time::Instant::now();
+            return Ok(packet);
+        }
+        let mut ctx = SrtpContext::new(
+            ssrc,
+            self.profile,
+            self.rx_keying.clone(),
+            SrtpDirection::Receiver,
+        )?;
+        let packet = ctx.unprotect(packet)?;
         self.evict_stale_rx(ssrc);
-        let ctx = match self.rx_contexts.entry(ssrc) {
-            Entry::Occupied(e) => e.into_mut(),
-            Entry::Vacant(e) => e.insert(SrtpContext::new(
-                ssrc,
-                self.profile,
-                self.rx_keying.clone(),
-                SrtpDirection::Receiver,
-            )?),
-        };
-        ctx.last_used = std::time::Instant::now();
-        ctx.unprotect(packet)
+        self.rx_contexts.insert(ssrc, ctx);
+        Ok(packet)
     }
 
     pub fn protect_rtcp(&mut self, packet: &mut Vec<u8>) -> SrtpResult<()> {
@@ -208,18 +214,21 @@ impl SrtpSession {
         }
         let ssrc = u32::from_be_bytes([packet[4], packet[5], packet[6], packet[7]]);
 
+        if let Some(ctx) = self.rx_contexts.get_mut(&ssrc) {
+            ctx.unprotect_rtcp(packet)?;
+            ctx.last_used = std::time::Instant::now();
+            return Ok(());
+        }
+        let mut ctx = SrtpContext::new(
+            ssrc,
+            self.profile,
+            self.rx_keying.clone(),
+            SrtpDirection::Receiver,
+        )?;
+        ctx.unprotect_rtcp(packet)?;
         self.evict_stale_rx(ssrc);
-        let ctx = match self.rx_contexts.entry(ssrc) {
-            Entry::Occupied(e) => e.into_mut(),
-            Entry::Vacant(e) => e.insert(SrtpContext::new(
-                ssrc,
-                self.profile,
-                self.rx_keying.clone(),
-                SrtpDirection::Receiver,
-            )?),
-        };
-        ctx.last_used = std::time::Instant::now();
-        ctx.unprotect_rtcp(packet)
+        self.rx_contexts.insert(ssrc, ctx);
+        Ok(())
     }
 
     /// Evict stale transmit contexts once the map crosses the high-water mark.
